@@ -689,7 +689,7 @@ def run_batch(job) -> dict:
         rng = random.Random(seed)
         cases.append(gen_ops(rng, rng.choice([6, 10, 16, 24, 30])))
     try:
-        results = runmod.fork_run(_run_many, cases, OPEN_IDS, real_timeout=120)
+        results = runmod.fork_run(_run_many, cases, OPEN_IDS, real_timeout=120, seed=seeds[0])
     except runmod.RunFailed as err:
         out['harness'] = f'seeds {seeds[0]}..: {str(err)[:800]}'
         out['stats'] = {}
@@ -699,7 +699,7 @@ def run_batch(job) -> dict:
     for seed, ops, res in zip(seeds, cases, results):
         if res['violation'] or res['known_hits']:
             try:  # believe only what a fresh process reproduces
-                res = runmod.fork_run(run_case, ops, OPEN_IDS, real_timeout=60)
+                res = runmod.fork_run(run_case, ops, OPEN_IDS, real_timeout=60, seed=seed)
             except runmod.RunFailed as err:
                 out['harness'] = f'seed {seed}: {str(err)[:800]}'
                 continue
@@ -723,7 +723,7 @@ OPEN_IDS: tuple = ()
 
 def reproduces(ops: list[dict], klass: str) -> typing.Optional[dict]:
     try:
-        res = runmod.fork_run(run_case, ops, OPEN_IDS, real_timeout=60)
+        res = runmod.fork_run(run_case, ops, OPEN_IDS, real_timeout=60, seed=1)
     except runmod.RunFailed:
         return None
     vio = res['violation']
